@@ -2,9 +2,9 @@ package concd
 
 import (
 	"fmt"
-	"sync"
 	"math/rand"
 	"sort"
+	"sync"
 	"sync/atomic"
 	"time"
 
